@@ -9,7 +9,9 @@ import (
 
 // writer is a buffered writer for a terminal. If the terminal supports
 // synchronized output, all writes will be wrapped with synchronized mode
-// set/reset. The internal buffer will be reset upon flushing
+// set/reset. The internal buffer will be reset upon flushing. mut guards the
+// buffer and the terminal: a shutdown started from another goroutine (signal
+// handler) may write while the application goroutine is rendering
 type writer struct {
 	buf *bytes.Buffer
 	w   io.Writer
@@ -29,6 +31,8 @@ func (w *writer) Write(p []byte) (n int, err error) {
 	if len(p) == 0 {
 		return 0, nil
 	}
+	w.mut.Lock()
+	defer w.mut.Unlock()
 	if w.buf.Len() == 0 {
 		if w.vx.caps.synchronizedUpdate {
 			w.buf.WriteString(decset(synchronizedUpdate))
@@ -48,6 +52,8 @@ func (w *writer) WriteString(s string) (n int, err error) {
 	if s == "" {
 		return 0, nil
 	}
+	w.mut.Lock()
+	defer w.mut.Unlock()
 	if w.buf.Len() == 0 {
 		if w.vx.cursorLast.visible {
 			// Hide cursor if it's visible
@@ -65,6 +71,8 @@ func (w *writer) Printf(s string, args ...any) (n int, err error) {
 }
 
 func (w *writer) Len() int {
+	w.mut.Lock()
+	defer w.mut.Unlock()
 	return w.buf.Len()
 }
 
@@ -78,6 +86,8 @@ func (w *writer) WriteStringLocked(s string) (n int, err error) {
 }
 
 func (w *writer) Flush() (n int, err error) {
+	w.mut.Lock()
+	defer w.mut.Unlock()
 	if w.buf.Len() == 0 {
 		// If we didn't write any visual changes, make sure we make any
 		// cursor changes here. Write directly to tty for these as
@@ -110,7 +120,5 @@ func (w *writer) Flush() (n int, err error) {
 	if w.vx.caps.synchronizedUpdate {
 		w.buf.WriteString(decrst(synchronizedUpdate))
 	}
-	w.mut.Lock()
-	defer w.mut.Unlock()
 	return w.w.Write(w.buf.Bytes())
 }
